@@ -10,6 +10,7 @@ from .c16 import obligation
 LEVEL = 'proof'
 TECHNIQUE = 'static analysis: value numbering of MIR def-use DAGs to non-commutative polynomial normal forms, compared with the documented residual identity (nothing executed)'
 RULES = {
+    'C14.R7': 'axis_bounds accepts exactly the axes below the dimension: a guard on (axis, dim) is `axis < dim`',
     'C14.R6': 'every arm of the exported macro poly! builds the half-spaces its relation spells: <  keeps M and b, + c < 0 negates c, > negates both, + c > 0 negates M',
     'C14.R5': 'dimension guards of intersection / apply_pre / apply_post assert an equality the result needs',
     'C14.R4': helpers.RULE_TEXT,
@@ -17,7 +18,7 @@ RULES = {
     'C14.R3': 'axis_bounds / hyperrectangle / place_axis_bounds: finite lower bound -x <= -l, finite upper bound x <= u, infinite bound 0 <= 1, one pair of rows per axis',
     'C14.R2': 'constructors without data-dependent control: unbounded (0·x <= 1), empty (0·x <= -1), hypercube (stack(I, -I) <= radius); cross_polytope (rows = all 2^dim sign vectors by the bit test, right-hand side 1); from_normal (hyperplane i has normal n_i and passes through p_i)',
 }
-FLOORS = {'C14.R6': 4, 'C14.R5': 3, 'C14.R4': 3, 'C14.R1': 10, 'C14.R2': 5, 'C14.R3': 3}
+FLOORS = {'C14.R7': 1, 'C14.R6': 4, 'C14.R5': 3, 'C14.R4': 3, 'C14.R1': 10, 'C14.R2': 5, 'C14.R3': 3}
 EXPLANATION = ('With r(x) = b - Ax (membership: r(x) >= -1e-8 row-wise) each transformation\'s result (A\', b\') is compared, as a polynomial identity valid for all '
                'matrices, with the residual the documentation prescribes: translate r(x-d), apply_pre r(Mx+c), apply_post r(N(y-k)), rotate r(R^T y).')
 DOES_NOT_DECIDE = ('simplex (its numeric constant), the orientation of from_normal (not documented; the boundary through p_i is decided), '
@@ -27,6 +28,7 @@ TRUSTED = ['semantics of ndarray dot/+/-/neg/t/concatenate/eye/zeros/ones/from_e
 
 def run(ctx):
     helpers.run_for(ctx)
+    prune.check_index_guards(ctx, 'C14.R7', ['AffFuncBase::axis_bounds'])
     prune.check_macro_arms(ctx, 'C14.R6', ['poly_less', 'poly_plus_less_zero', 'poly_greater', 'poly_plus_greater_zero'])
     prune.check_dimension_guards(ctx, 'C14.R5', ['AffFuncBase::intersection', 'AffFuncBase::apply_pre', 'AffFuncBase::apply_post'])
     prune.check_layout_independence(ctx, 'C14.R1')
